@@ -204,6 +204,11 @@ func (m *Mem) Read(keys []*Term) *Term {
 	if len(keys) != len(m.ksort) {
 		panic(fmt.Sprintf("mem %s: %d keys, want %d", m.name, len(keys), len(m.ksort)))
 	}
+	if litLookup != nil && len(keys) == 2 && m.sort == 8 {
+		if v, ok := litLookup(keys); ok {
+			return v
+		}
+	}
 	// iterative descent over the prev chain to avoid deep recursion
 	ks := keyStr(keys)
 	type pend struct {
@@ -304,8 +309,12 @@ func (m *Mem) Read(keys []*Term) *Term {
 
 // splitOff decomposes t into (base, constant offset) for bvadd chains.
 func splitOff(t *Term) (*Term, *Term) {
-	if t.op == "bvadd" && t.args[1].IsConst() {
-		return t.args[0], t.args[1]
+	if t.op == "bvadd" && t.args[len(t.args)-1].IsConst() {
+		rest := t.args[:len(t.args)-1]
+		if len(rest) == 1 {
+			return rest[0], t.args[len(t.args)-1]
+		}
+		return mk("bvadd", t.sort, rest...), t.args[len(t.args)-1]
 	}
 	return t, nil
 }
@@ -468,3 +477,6 @@ func stripRegions(m *Mem, dead map[uint64]bool, minID int, memo map[*Mem]*Mem) *
 	memo[m] = res
 	return res
 }
+
+// litLookup resolves reads from string-literal regions (set by the engine).
+var litLookup func(keys []*Term) (*Term, bool)
